@@ -31,7 +31,7 @@ import (
 func init() {
 	core.Register(&core.Check{
 		ID: "C19", Level: "exploration",
-		Rule: "(trace) the REAL storage driver + ledger store factory + every resource handler and write method + the numscript runtimes (machine and interpreter, multi-source scripts) run over a recording SQL driver whose scripted _system.ledgers table EXECUTES the system store's statements (WHERE evaluated on rows with deleted_at): random sequences of CreateLedger / OpenLedger over 1-3 ledgers sharing a bucket plus one alone, ledger creation mid-history, store handles kept across creations; whenever the scripted table holds >=2 rows for the bucket (soft-deleted rows included: their data is still in the bucket tables) every statement emitted by a store of ledger L must IMPLY `ledger = 'L'` in each (sub)select / update scope touching a bucket table - the WHERE / inner-join ON condition is parsed with the SQL precedence (NOT > AND > OR, paren-aware) and the predicate must hold in every OR branch - and insert rows with ledger L; nothing is asserted while L's row is the only one of its bucket. GetBalances' select is answered by evaluating its WHERE on the accounts_volumes rows of ALL ledgers of the bucket (overlapping accounts, different amounts): the returned balances must be L's own, a multi-source script on L never takes more from a source than L's own balance. (softdel) A[,B] created and written in one bucket, bucket soft-deleted through the real system store (DeleteBucket), C created in the same bucket, every read / write / script on C and on the kept handles scanned as above; then RestoreBucket and reads on A/B/C; then HardDeleteBucket and a ledger really alone (negative control: unscoped statements are allowed and counted). (controller) random interleaved histories on 2-3 ledgers of one bucket with overlapping accounts / references / idempotency keys through the real controller stack: an operation on one ledger never changes the snapshot of another. Distinct = (loop, rows in bucket, method, query shape); non-trivial = statement emitted while the bucket held rows of >=2 ledgers",
+		Rule:        "(trace) the REAL storage driver + ledger store factory + every resource handler and write method + the numscript runtimes (machine and interpreter, multi-source scripts) run over a recording SQL driver whose scripted _system.ledgers table EXECUTES the system store's statements (WHERE evaluated on rows with deleted_at): random sequences of CreateLedger / OpenLedger over 1-3 ledgers sharing a bucket plus one alone, ledger creation mid-history, store handles kept across creations; whenever the scripted table holds >=2 rows for the bucket (soft-deleted rows included: their data is still in the bucket tables) every statement emitted by a store of ledger L must IMPLY `ledger = 'L'` in each (sub)select / update scope touching a bucket table - the WHERE / inner-join ON condition is parsed with the SQL precedence (NOT > AND > OR, paren-aware) and the predicate must hold in every OR branch - and insert rows with ledger L; nothing is asserted while L's row is the only one of its bucket. GetBalances' select is answered by evaluating its WHERE on the accounts_volumes rows of ALL ledgers of the bucket (overlapping accounts, different amounts): the returned balances must be L's own, a multi-source script on L never takes more from a source than L's own balance. (softdel) A[,B] created and written in one bucket, bucket soft-deleted through the real system store (DeleteBucket), C created in the same bucket, every read / write / script on C and on the kept handles scanned as above; then RestoreBucket and reads on A/B/C; then HardDeleteBucket and a ledger really alone (negative control: unscoped statements are allowed and counted). (controller) random interleaved histories on 2-3 ledgers of one bucket with overlapping accounts / references / idempotency keys through the real controller stack: an operation on one ledger never changes the snapshot of another. Distinct = (loop, rows in bucket, method, query shape); non-trivial = statement emitted while the bucket held rows of >=2 ledgers",
 		Assumptions: []string{"that a statement whose condition implies ledger = 'L' returns / locks / changes only that ledger's rows is Postgres' business; bucket DDL (migrations, AddLedger, DROP SCHEMA) is replaced by a fake bucket", "a revert's balance check is exercised as the store-level GetBalances with >=2 (account, asset) pairs, not through the controller's RevertTransaction (the controller half runs on the in-memory store, which emits no SQL)", seqAssume},
 		Run:         runC19,
 	})
